@@ -11,7 +11,7 @@ macro_rules | `(tactic| hspecOld) => `(tactic| exact T.get)
 
 
 theorem inv_level {s : PState} (hi : Inv src s) (l : Int) : Inv src { s with exprLevel := l } :=
-  hi.congr rfl rfl rfl rfl
+  hi.congr rfl rfl rfl rfl (fun _ h => h)
 
 /-- what a comment token returned by the scanner satisfies w.r.t. the comments already listed -/
 @[reducible] def CommentFacts (a : Option (Nat × Token)) (s : PState) : Prop :=
@@ -92,7 +92,7 @@ theorem scanNext_establishes (s : PState) (hs : Inv0 src s) :
   have hsrc : s.scan.nextToken.2.src = src := by rw [nextToken_src, hs.src_eq]
   have hmono := nextToken_pos_mono s.scan
   have h0 : Inv0 src { s with prevPos := s.scan.preback, scan := s.scan.nextToken.2, steps := s.steps + 1 } :=
-    ⟨hsrc, hs.sorted, fun c hc => Nat.lt_of_lt_of_le (hs.below c hc) hmono, hs.real, hs.cur⟩
+    ⟨hsrc, hs.sorted, fun c hc => Nat.lt_of_lt_of_le (hs.below c hc) hmono, hs.real, hs.cur, hs.lead⟩
   cases hr : s.scan.nextToken.1 with
   | ok v =>
     refine ⟨⟨h0, ?_⟩, ?_, ?_⟩
@@ -133,7 +133,7 @@ theorem trueLine_spec {R : PState → Prop} (pos : Nat) : T src R (trueLine pos)
 theorem push_comment_inv {s : PState} (hi : Inv src s) (c : Comment)
     (h1 : ∀ x ∈ s.comments.toList, x.pos < c.pos) (h2 : c.pos < s.scan.pos) (h3 : RealComment src c) :
     Inv src { s with comments := s.comments.push c } := by
-  refine ⟨⟨hi.src_eq, ?_, ?_, ?_, hi.cur⟩, hi.mark⟩
+  refine ⟨⟨hi.src_eq, ?_, ?_, ?_, hi.cur, hi.lead⟩, hi.mark⟩
   · simp only [Array.toList_push, List.map_append, List.map_cons, List.map_nil]
     rw [List.pairwise_append]
     refine ⟨hi.sorted, by simp, ?_⟩
@@ -171,9 +171,11 @@ theorem commentLoop_spec : ∀ (fuel line : Nat) (trailing : Option Nat) (posTok
     unfold commentLoop
     split
     · rename_i pos text
+      refine T.extractI (p := RealComment src ⟨pos, String.ofList text⟩)
+        (fun s hi hr => hi.src_eq ▸ (hr pos text rfl).2.2) (fun hrc => ?_)
       refine T.bind (trueLine_spec pos) (fun startLine => ?_)
       dsimp only
-      refine T.ite (fun _ => T.bind (T.modifyF _ (fun _ => ⟨rfl, rfl, rfl, rfl⟩) (fun _ h => h)) (fun _ => ?_)) (fun _ => ?_)
+      refine T.ite (fun _ => T.bind (T.clearLeadF (fun _ h => h)) (fun _ => ?_)) (fun _ => ?_)
       all_goals (
         refine T.bind scanPosition_spec (fun ended => ?_)
         refine T.bind (trueLine_spec ended) (fun line' => ?_)
@@ -262,7 +264,12 @@ theorem goback_establishes (prev : Nat × Bool) (hg : GoodMark src prev) (s : PS
     leadComments := s.leadComments.filter (·.pos < prev.1),
     scan := s.scan.goback prev }
   have h01 : Inv0 src s1 := by
-    refine ⟨hsrc, ?_, ?_, ?_, hs.cur⟩
+    refine ⟨hsrc, ?_, ?_, ?_, hs.cur, ?_⟩
+    rotate_left 3
+    · intro c hc
+      have hc' : c ∈ (s.leadComments.filter (·.pos < prev.1)).toList := hc
+      rw [Array.toList_filter, List.mem_filter] at hc'
+      exact hs.lead c hc'.1
     rotate_left 2
     · intro c hc
       have hc' : c ∈ (s.comments.filter (·.pos < prev.1)).toList := hc
@@ -313,7 +320,8 @@ theorem T0.goback_bind {β} {R : PState → Prop} (prev : Nat × Bool) (hg : Goo
 
 /-- after a caught error: a step that does not look at the mark (level bookkeeping), then an error -/
 theorem T0.modify_throw {β} {R : PState → Prop} (f : PState → PState)
-    (hf : ∀ s, (f s).scan = s.scan ∧ (f s).comments = s.comments ∧ (f s).current = s.current)
+    (hf : ∀ s, (f s).scan = s.scan ∧ (f s).comments = s.comments ∧ (f s).current = s.current ∧
+      (f s).leadComments = s.leadComments)
     (e : PErr) (he : ∀ s, R s → ErrOK e s)
     {Q : β → PState → Prop} : T0 src R (P.modify f >>= fun _ => (P.throw e : P β)) Q := by
   intro s hs hr
@@ -321,10 +329,10 @@ theorem T0.modify_throw {β} {R : PState → Prop} (f : PState → PState)
     | (.ok a, s') => Inv src s' ∧ Q a s'
     | (.error e, s') => ErrOK e s' ∧ Inv0 src s'
   simp only [Bind.bind, P.modify, P.throw]
-  exact ⟨(he s hr).congr (hf s).1, hs.congr (hf s).1 (hf s).2.1 (hf s).2.2⟩
+  exact ⟨(he s hr).congr (hf s).1, hs.congr (hf s).1 (hf s).2.1 (hf s).2.2.1 (by rw [(hf s).2.2.2]; exact fun _ h => h)⟩
 
 macro_rules | `(tactic| hstep0) => `(tactic| (with_reducible refine T0.goback_bind _ (by assumption) ?_))
-macro_rules | `(tactic| hstep0) => `(tactic| (unfold decExprLevel; refine T0.modify_throw _ ?_ _ ?_; (intro _; exact ⟨rfl, rfl, rfl⟩); (intros; simp_all)))
+macro_rules | `(tactic| hstep0) => `(tactic| (unfold decExprLevel; refine T0.modify_throw _ ?_ _ ?_; (intro _; exact ⟨rfl, rfl, rfl, rfl⟩); (intros; simp_all)))
 
 theorem goback_spec (prev : Nat × Bool) (hg : GoodMark src prev) : T src Tr (goback prev) (fun _ _ => True) := by
   intro s hi _
@@ -358,14 +366,17 @@ theorem skipped_spec (k : TokenKind) : T src Tr (skipped k) (fun _ _ => True) :=
   unfold skipped
   hoare
 
-theorem drainComments_spec : T src Tr drainComments (fun _ _ => True) := by
+/-- **documentation is made of comments of the source**: what `drain_comments` hands to a declaration, spec or
+    field is a list of comment tokens of the source (at their offsets, with their text) -/
+theorem drainComments_spec : T src Tr drainComments (fun cs _ => ∀ c ∈ cs, RealComment src c) := by
   unfold drainComments
-  refine T.bind T.get (fun st => ?_)
-  refine T.bind (Q1 := fun _ _ => True) ?_ (fun _ => T.pure _ (fun _ _ => trivial))
+  refine T.bind T.getInv (fun st => ?_)
+  refine T.extract (p := Inv src st) (fun s h => by rw [h.1]; exact h.2.1) (fun hinv => ?_)
+  refine T.bind (Q1 := fun _ _ => True) ?_ (fun _ => T.pure _ (fun _ _ => hinv.lead))
   refine T.set _ ?_
   intro s hi hr
   obtain ⟨rfl, _⟩ := hr
-  exact ⟨hi.congr rfl rfl rfl rfl, trivial⟩
+  exact ⟨hi.congr rfl rfl rfl rfl (fun _ h => (List.not_mem_nil h).elim), trivial⟩
 
 theorem lineEndComment_spec : T src Tr lineEndComment (fun _ _ => True) := by
   unfold lineEndComment
@@ -379,7 +390,7 @@ theorem lineEndComment_spec : T src Tr lineEndComment (fun _ _ => True) := by
   split
   · hoare
   · rename_i p text
-    refine T.bind (T.modifyF _ (fun _ => ⟨rfl, rfl, rfl, rfl⟩) (fun _ h => h)) (fun _ => ?_)
+    refine T.bind (T.clearLeadF (fun _ h => h)) (fun _ => ?_)
     refine T.bind (trueLine_spec p) (fun line1 => ?_)
     refine T.ite (fun _ => ?_) (fun _ => ?_)
     · refine T.bind (Q1 := fun _ _ => True)
